@@ -210,10 +210,6 @@ def payload_bytes(p: dict, cls: dict) -> bytes:
     v = struct.unpack_from("<3I", bytes(data[:12]))
     if len(set(v)) == 1:
         struct.pack_into("<3I", data, 0, 0x20008000, 0x00000101 | (seed[0] << 8), 0x00000201)
-    if has(cls, "MixinBca", "MixinFcf"):
-        # MCXC: no BCA tag unless asked for (a random 'kcfg' is not generated), FCF is any 16 bytes
-        if data[0x3C0:0x3C4] == b"kcfg":
-            data[0x3C0] ^= 1
     tail = p.get("tail", "none")
     if tail == "reloc_footer" and n >= 0x38 + 16:
         # looks like the footer of a relocation table: marker, version 0, entry count, pointer
@@ -221,6 +217,16 @@ def payload_bytes(p: dict, cls: dict) -> bytes:
         data[n - n % 4 - 16 : n - n % 4] = struct.pack("<4I", RELOC_MARKER, 0, cnt, ptr)
     elif tail == "marker_only" and n >= 0x38 + 16:
         data[n - n % 4 - 16 : n - n % 4 - 12] = struct.pack("<I", RELOC_MARKER)
+    if has(cls, "MixinBca", "MixinFcf"):
+        # MCXC: no BCA tag unless asked for (a random 'kcfg' is not generated); a valid flash configuration field has its two
+        # reserved bytes erased (0xFF), the other 14 bytes are free
+        if data[0x3C0:0x3C4] == b"kcfg":
+            data[0x3C0] ^= 1
+        data[0x40E:0x410] = b"\xff\xff"
+    if has(cls, "MixinFcfObsolete"):
+        # MC56F81xxx: the flash security byte of a valid FCF is one of the defined life cycle states
+        tags = sorted(LIFECYCLES.values())
+        data[0x40C] = tags[seed[1] % len(tags)]
     return bytes(data)
 
 
@@ -344,7 +350,8 @@ def options_strategy(cls: dict, max_len: int = 16384, rich_keys: bool = False):
     if has(cls, "MixinRelocTable"):
         entry = st.fixed_dictionaries({"n": st.one_of(st.integers(1, 70), st.sampled_from([1, 3, 4, 5, 16, 17, 255, 256, 1021])),
                                        "seed": st.binary(min_size=4, max_size=4), "dest": _U32})
-        d["reloc"] = st.one_of(st.none(), st.none(), st.lists(entry, min_size=1, max_size=3))
+        # distinct destination addresses (two images for one address make no sense; the recreated configuration names files by address)
+        d["reloc"] = st.one_of(st.none(), st.none(), st.lists(entry, min_size=1, max_size=3, unique_by=lambda e: e["dest"]))
     if has(cls, "MixinManifestDigest"):
         d["digest"] = st.sampled_from([None, None, "sha256", "sha384", "sha512", "add", "add"])
     if has(cls, "MixinFcfObsolete"):
@@ -715,6 +722,9 @@ def materialise(case: dict, root: str) -> Built:
     b.config = cfg
     b.config_path = _write(os.path.join(d, "mbi.yaml"), yaml.safe_dump(cfg, sort_keys=False))
     labels += ["comp:" + cls["comp"], "auth:" + cls["auth"], "target:" + cls["target"], "type:%d" % cls["image_type"]]
+    if cls["fixed_image_type"] is not None and cls["fixed_image_type"] != cls["image_type"]:
+        # MC56F81xxx images carry no type word: the database fixes ONE type per family for parsing
+        labels.append("fixed_type_mismatch")
     return b
 
 
@@ -777,5 +787,64 @@ def ec_public_xy(desc: dict) -> tuple:
     return K.ec_public_xy(desc["curve"], int(desc["d"]))
 
 
-__all__ = [n for n in dir() if not n.startswith("_")]
-_ = pk  # re-exported for users that need curve sizes
+
+
+def default_case(cls: dict, salt: int = 0) -> dict:
+    """A deterministic, fully specified case for a class (used by the matrix enumerations): every option of the
+    class's mixins gets a non-default value derived from `salt`."""
+    h = hashlib.sha256(("%s/%s/%s/%s/%d" % (cls["family"], cls["revision"], cls["target"], cls["auth"], salt)).encode()).digest()
+    r = int.from_bytes(h[:8], "big")
+    dsc = has(cls, "MixinBcaTable")
+    lo = 0xC04 if dsc else 0x410 if has(cls, "MixinBca", "MixinFcf") else 0x44
+    opt: dict = {
+        "payload": {"n": lo + 0x200 + r % 61, "seed": h[8:12], "tail": "none", "tail_cnt": 1, "tail_ptr": 0x40, "fill": "random"},
+        "words": [r % 3, (r >> 2) % 3],
+        "explicit_revision": bool(r & 16),
+    }
+    if has(cls, "MixinLoadAddress", "MixinLoadAddressOptional"):
+        opt["load_address"] = 0x20000000 + 0x100 * (r % 251)
+        opt["addr_as"] = "hex" if r & 1 else "int"
+    if has(cls, "MixinImageVersion"):
+        opt["image_version"] = 1 + r % 0xFFFF
+    if has(cls, "MixinFwVersion", "MixinManifestCrc", "MixinManifestDigest", "MixinBcaObsolete"):
+        opt["firmware_version"] = 1 + (r >> 8) % 0xFFFFFFF
+    if has(cls, "MixinImageSubType"):
+        opt["subtype"] = ["main", "nbu", "recovery"][r % 3]
+    n_tz = len(tz_spec(cls["family"], cls["revision"]))
+    if has(cls, "MixinTrustZone", "MixinTrustZoneMandatory", "MixinManifestCrc", "MixinManifestDigest"):
+        mode = ["custom_bin", "custom_yaml", "default"][r % 3] if n_tz else "default"
+        opt["tz"] = {"mode": mode, "seed": h[12:16], "count": min(n_tz, 5), "all": False}
+    if has(cls, "MixinHwKey"):
+        opt["hw_key"] = bool(r & 2)
+    if has(cls, "MixinKeyStore"):
+        opt["key_store"] = h[16:20] if r & 4 else None
+    if has(cls, "MixinHmac", "MixinHmacMandatory"):
+        opt["user_key"] = h
+        opt["key_as"] = ["hex", "0xhex", "txt", "bin"][r % 4]
+    if has(cls, "MixinCtrInitVector"):
+        opt["iv"] = h[:16] if r & 8 else None
+    if has(cls, "MixinRelocTable"):
+        opt["reloc"] = [{"n": 5 + r % 40, "seed": h[20:24], "dest": 0x20100000}] if r & 32 else None
+    if has(cls, "MixinManifestDigest"):
+        opt["digest"] = [None, "add", "sha256", "sha384"][r % 4]
+    if has(cls, "MixinFcfObsolete"):
+        opt["lifecycle"] = [None, "OEM_OPEN", "NOT_SET"][r % 3]
+    ck = cert_kind(cls)
+    if ck == "v1":
+        bits = [2048, 3072, 4096][r % 3]
+        depth = 1 + (r >> 3) % 3
+        opt["v1"] = {"chain": [{"t": "rsa", "bits": bits, "i": (k + r) % K.RSA_POOL[bits]} for k in range(depth)],
+                     "others": [{"t": "rsa", "bits": 2048, "i": (r + 5 + k) % 8} for k in range((r >> 5) % 4)] if bits != 2048 else [],
+                     "used": (r >> 7) % 4, "build": r % 3, "id_key": "mainRootCertId", "pem": bool(r & 64)}
+        opt["sign_as"] = "signPrivateKey"
+    elif ck == "v21":
+        rc = ["secp256r1", "secp384r1"][r % 2]
+        nn = pk.CURVES[rc].n
+        opt["v21"] = {"curve": rc, "roots": [1 + (r * (k + 3) + k) % (nn - 2) for k in range(1 + (r >> 3) % 4)], "used": (r >> 5) % 4,
+                      "isk": {"t": "ec", "curve": ["secp256r1", "secp384r1"][(r >> 1) % 2], "d": 2 + r % 1000003} if r & 4 else None,
+                      "isk_data": h[:16] if r & 8 else b"", "constraint": r % 7, "root_as_cert": bool(r & 128)}
+        opt["sign_as"] = "signPrivateKey"
+    elif ck == "vx":
+        opt["vx"] = {"isk": 2 + r % 1000003, "self_signed": bool(r & 1), "issuer": 5 + r % 999983, "add_hash": [True, False, None][r % 3]}
+        opt["sign_as"] = "signPrivateKey"
+    return {"cls": class_key(cls), "opt": opt}
